@@ -31,37 +31,44 @@ def _mutants_for(prop):
     return out
 
 
+def run_one(prop, patch):
+    """apply `patch` to a scratch copy of the repo's sources, run the quick check of `prop` on it; (status, [violated instance keys])"""
+    import re
+    repo = os.environ.get("AGL_REPO", "/repo")
+    scratch_root = os.path.join(facts.SCRATCH, "mutants")
+    os.makedirs(scratch_root, exist_ok=True)
+    work = tempfile.mkdtemp(prefix="m-", dir=scratch_root)
+    try:
+        for item in ("src", "Cargo.toml", "Cargo.lock", "build.rs", "benches", "data"):
+            sp = os.path.join(repo, item)
+            if os.path.isdir(sp) and item in ("src", "benches"):
+                shutil.copytree(sp, os.path.join(work, item))
+            elif os.path.isfile(sp):
+                shutil.copy2(sp, os.path.join(work, item))
+        r = subprocess.run(["git", "apply", "--unsafe-paths", "--directory=" + work, patch], cwd="/", stdout=subprocess.PIPE, stderr=subprocess.STDOUT, text=True)
+        if r.returncode != 0:
+            r = subprocess.run(["patch", "-p1", "-s", "-d", work, "-i", patch], stdout=subprocess.PIPE, stderr=subprocess.STDOUT, text=True)
+        if r.returncode != 0:
+            return "skipped", []
+        ev = os.path.join(work, "evidence")
+        env = dict(os.environ, AGL_REPO=work, AGL_EVIDENCE_DIR=ev, VERIF_TIER="quick")
+        c = subprocess.run([os.path.join(VERIF, "bin", "check"), prop], env=env, stdout=subprocess.PIPE, stderr=subprocess.STDOUT, text=True)
+        keys = [m.group(1) for m in (re.match(r"^  (O[0-9a-z.]+\|[^:]*(?:::[^:]+)*?): ", l) for l in c.stdout.splitlines()) if m]
+        if not keys:
+            keys = [l.strip().split(": ")[0] for l in c.stdout.splitlines() if re.match(r"^  O[0-9a-z.]+\|", l)]
+        return ("caught" if c.returncode == 1 else ("checker-broken" if c.returncode == 2 else "MISSED")), keys
+    finally:
+        shutil.rmtree(work, ignore_errors=True)
+
+
 def run_for(run, prop):
     ms = _mutants_for(prop)
     if not ms:
         return
-    repo = os.environ.get("AGL_REPO", "/repo")
-    scratch_root = os.path.join(facts.SCRATCH, "mutants")
-    os.makedirs(scratch_root, exist_ok=True)
     results = []
     for (name, patch, meta) in ms:
-        work = tempfile.mkdtemp(prefix="m-", dir=scratch_root)
-        try:
-            for item in ("src", "Cargo.toml", "Cargo.lock", "build.rs", "benches", "data"):
-                sp = os.path.join(repo, item)
-                if os.path.isdir(sp) and item in ("src", "benches"):
-                    shutil.copytree(sp, os.path.join(work, item))
-                elif os.path.isfile(sp):
-                    shutil.copy2(sp, os.path.join(work, item))
-            r = subprocess.run(["git", "apply", "--unsafe-paths", "--directory=" + work, patch], cwd="/", stdout=subprocess.PIPE, stderr=subprocess.STDOUT, text=True)
-            if r.returncode != 0:
-                r = subprocess.run(["patch", "-p1", "-s", "-d", work, "-i", patch], stdout=subprocess.PIPE, stderr=subprocess.STDOUT, text=True)
-            if r.returncode != 0:
-                results.append({"mutant": name, "status": "skipped", "why": "diff no longer applies"})
-                continue
-            ev = os.path.join(work, "evidence")
-            env = dict(os.environ, AGL_REPO=work, AGL_EVIDENCE_DIR=ev, VERIF_TIER="quick")
-            c = subprocess.run([os.path.join(VERIF, "bin", "check"), prop], env=env, stdout=subprocess.PIPE, stderr=subprocess.STDOUT, text=True)
-            viol = [l for l in c.stdout.splitlines() if l.startswith("  O")]
-            results.append({"mutant": name, "status": "caught" if c.returncode == 1 else ("checker-broken" if c.returncode == 2 else "MISSED"),
-                            "rc": c.returncode, "reported": [v.strip()[:160] for v in viol[:3]], "what": meta.get("summary", "")[:160]})
-        finally:
-            shutil.rmtree(work, ignore_errors=True)
+        status, keys = run_one(prop, patch)
+        results.append({"mutant": name, "status": status, "reported": [k[:160] for k in keys[:4]], "what": meta.get("summary", "")[:160]})
     for r in results:
         run.selftest("mutant/" + r["mutant"], r["status"] in ("caught", "skipped"), True)
     run.notes.append("mutants: " + json.dumps(results))
